@@ -568,6 +568,12 @@ func (cv *Conv) Exec(e *Edge) (divs []evid.Div, fatal error) {
 					d5.Prop = "C05"
 					out = append(out, d5)
 				}
+				if cc := e.Lbl.Cmd.C; e.Cfg.Lmtp && hp != "C13" && (strings.HasPrefix(cc, "DATA") || strings.HasPrefix(cc, "BDAT") && e.Lbl.Cmd.L) {
+					// LMTP: the final response "never deadlocks" and has one reply per recipient
+					d13 := d
+					d13.Prop = "C13"
+					out = append(out, d13)
+				}
 				if hp != "C08" {
 					// does the wedged connection at least end when its peer goes away?
 					cv.C.Abort()
@@ -706,7 +712,7 @@ func (cv *Conv) Exec(e *Edge) (divs []evid.Div, fatal error) {
 			prop = "C10" // offered and accepted only when TLS is configured and not yet active
 		} else if e.Lbl.Cmd.C == "LONG" || e.Lbl.Cmd.C == "BAD" {
 			prop = "C19"
-		} else if e.Cfg.Lmtp && len(rs) != len(exp) && (e.Lbl.Cmd.C == "DATA" || e.Lbl.Cmd.C == "BDAT" && e.Lbl.Cmd.L) && len(rs) <= len(exp) {
+		} else if cc := e.Lbl.Cmd.C; e.Cfg.Lmtp && len(rs) != len(exp) && (cc == "DATA" || cc == "DATASTALL" || (cc == "BDAT" || cc == "BDATSTALL") && e.Lbl.Cmd.L) && len(rs) <= len(exp) {
 			prop = "C13" // LMTP: one final reply per accepted recipient
 		}
 		divs = append(divs, evid.Div{Prop: prop, Key: fmt.Sprintf("replies:%s:%s", e.Lbl.Cmd.String(), srcClass(e)),
